@@ -13,7 +13,7 @@
        harness observes, and the expected answers / subtrees by [DavServer.run].
 
     Definitions only (extracted); proofs in ConcServeProofs.v. *)
-From GW Require Import Base GoPath Fs DavServer CopySteps.
+From GW Require Import Base GoPath Fs DavServer CopySteps UploadSteps.
 Local Open Scope list_scope.
 
 (** * 1. Threads of adaptive programs over an arbitrary shared state *)
@@ -161,9 +161,6 @@ Definition copy_prog (c : path) (r : request) (dst : string) (recursive overwrit
 (** ** LocalFileSystem.Create's upload section as OS calls (UploadSteps.v): createTemp,
     one write per piece of the body, Rename (= read the temporary file, remove it,
     map it at the target). *)
-Fixpoint concat_strs (l : list string) : string :=
-  match l with [] => ""%string | c :: r => (c ++ concat_strs r)%string end.
-
 Fixpoint write_steps (tmpp : path) (st : N) (acc : string) (chunks : list string)
                      (k : tprog act result bool) : tprog act result bool :=
   match chunks with
